@@ -246,10 +246,11 @@ func Pipe() (r *File, w *File, err error) {
 	return r, w, nil
 }
 
-func IsNotExist(err error) bool   { return os.IsNotExist(err) }
-func IsExist(err error) bool      { return os.IsExist(err) }
-func IsPermission(err error) bool { return os.IsPermission(err) }
-func IsTimeout(err error) bool    { return os.IsTimeout(err) }
+func SameFile(fi1, fi2 FileInfo) bool { return k.SameFile(fi1, fi2) }
+func IsNotExist(err error) bool       { return os.IsNotExist(err) }
+func IsExist(err error) bool          { return os.IsExist(err) }
+func IsPermission(err error) bool     { return os.IsPermission(err) }
+func IsTimeout(err error) bool        { return os.IsTimeout(err) }
 
 func NewSyscallError(syscall string, err error) error { return os.NewSyscallError(syscall, err) }
 
